@@ -318,14 +318,19 @@ func kwDoc(r *rand.Rand, kw string) []byte {
 	for _, v := range caseVariants(kw) {
 		for place := 0; place < 3; place++ {
 			for _, bc := range byteClasses {
-				l := kwLine(r, v, place, bc)
 				if bc.name == "longrun" {
+					// two long lines per document, 300 or 5000 bytes (one in four documents: 70 000, past bufio.Scanner's limit)
 					if len(long) < 2 {
-						long = append(long, l)
+						n := []int{300, 5000}[r.Intn(2)]
+						if len(long) == 1 && r.Intn(4) == 0 {
+							n = 70000
+						}
+						run := byteClass{"longrun", func(r *rand.Rand) []byte { return bytes.Repeat([]byte{[]byte{'A', 0xe9, ' ', 0x80}[r.Intn(4)]}, n) }}
+						long = append(long, kwLine(r, v, place, run))
 					}
 					continue
 				}
-				short = append(short, l)
+				short = append(short, kwLine(r, v, place, bc))
 			}
 		}
 	}
